@@ -25,6 +25,8 @@ import (
 	"sync/atomic"
 	"time"
 
+	"github.com/boz/kcache"
+	pkgerrors "github.com/pkg/errors"
 	corev1 "k8s.io/api/core/v1"
 	apierrors "k8s.io/apimachinery/pkg/api/errors"
 	metav1 "k8s.io/apimachinery/pkg/apis/meta/v1"
@@ -74,6 +76,10 @@ var listErrFlavours = []listErrFlavour{
 	{"status 429 too many requests", apierrors.NewTooManyRequests("injected", 1)},
 	{"status 500 internal", apierrors.NewInternalError(errors.New("injected"))},
 	{"status 401 unauthorized", apierrors.NewUnauthorized("injected")},
+	// the library's own sentinel as the CAUSE of a client error: a list client that reads another
+	// controller's cache (a derived controller) fails like this once that controller has stopped
+	{"kcache.ErrNotRunning", kcache.ErrNotRunning},
+	{"wrapped kcache.ErrNotRunning", pkgerrors.Wrap(pkgerrors.WithStack(kcache.ErrNotRunning), "upstream cache")},
 }
 var errWatchInjected = errors.New("injected watch connect failure")
 
